@@ -62,7 +62,7 @@ def accepts_index(node, sub):
     k = core["k"]
     if k in ("vmap", "repeat"):
         inner = core["inner"]
-        return True if sub == "update" else accepts_regenerate(inner)
+        return True if sub in ("update", "static") else accepts_regenerate(inner)
     if k == "scan":
         kern = core["inner"]
         if not carry_index_editable(kern):
@@ -273,6 +273,9 @@ def profile_for(pid, tier):
         G["lens"] = [0, 1, 2, 2, 3, 3]
         G["axis1"] = 0.6
         G["vec_param"] = 0.3
+        P["rejuv"] = 0.6
+        P["index_static"] = 0.4
+        G["vec_static_inner"] = 0.6
     elif pid == "C13":
         G["root_kinds"] = {"switch": 5, "or_else": 3, "mix": 2, "static": 2, "vmap": 1}
         P["oob_index"] = 0.25
@@ -304,7 +307,7 @@ def profile_for(pid, tier):
         G["static_kw"] = 0.5
     elif pid == "C22":
         G["root_kinds"] = {"static": 6, "vmap": 1, "scan": 1, "closure": 1}
-        G["addr_styles"] = {"str": 3, "tuple": 3, "mixed": 1}
+        G["addr_styles"] = {"str": 3, "tuple": 3, "mixed": 1, "deep": 3}
         P["allowed_features"] = ["mixed_addr"]
         P["ops"].update({"abort": 5})
     elif pid == "C06":
@@ -341,8 +344,16 @@ def profile_for(pid, tier):
         G["root_kinds"] = {"static": 5, "dimap": 1, "closure": 1, "vmap": 2, "scan": 2, "switch": 3, "or_else": 1}
         G["nest"] = 0.7
         P["oob_index"] = 0.2
+        P["ops"].update({"index_edit": 6, "static_edit": 5})
+        P["rejuv"] = 0.8
+        P["index_static"] = 0.8
+        G["root_kinds"].update({"vmap": 4, "repeat": 2})
+        G["vec_static_inner"] = 0.7
     elif pid == "C33":
         P["ops"].update({"abort": 8})
+        G["kinds"].update({"switch": 5, "or_else": 2})
+        G["shared_names"] = 0.6
+        G["addr_styles"] = {"str": 4, "tuple": 4, "mixed": 0}
     elif pid == "C35":
         P["ops"].update({"importance": 6, "update": 6})
         P["perts"].update({"enc:mask-true": 5, "enc:mask-true-traced": 6, "enc:mask-false": 6})
@@ -364,11 +375,15 @@ def profile_for(pid, tier):
         G["root_kinds"] = {"static": 6, "dimap": 1, "partial": 1, "closure": 1, "vmap": 1, "scan": 1, "mix": 2}
         G["max_stmts"] = 4
         G["choice_switch"] = 0.25
+        P["rejuv"] = 0.25
+        P["index_static"] = 0.4
         P["dep_switch_bias"] = 0.6
         P["undo_after"] = {"static_edit": 0.7, "empty_edit": 0.3}
     elif pid == "C04":
         P["ops"] = {"simulate": 10, "importance": 1, "update": 1}
         P["perts"].update({"key:replay": 6, "cache:cold": 3, "stage:jit": 4, "stage:vmap": 4})
+    if P.get("rejuv", 0.0) > 0:
+        G["leaves"] = list(G["leaves"]) + ["normal"] * 6  # call sites a normal proposal can rejuvenate
     return P
 
 
@@ -384,6 +399,28 @@ def _static_addrs(node):
             seen.add(s)
             out.append(s)
     return out
+
+
+def _gen_static_subs(rng, P, node, sr):
+    """Sub-requests of a StaticRequest on static function sr; (subs, all accepted)."""
+    subs = []
+    ok = True
+    for s in sr["stmts"]:
+        rj = P.get("rejuv", 0.0)
+        if rng.random() < max(0.6, rj):
+            if rj > 0 and s["callee"]["k"] == "dist" and s["callee"]["d"] == "normal" and rng.random() < rj:
+                subs.append({"addr": s["addr"], "kind": "rejuv", "a": round(rng.uniform(0.3, 1.0), 2), "b": round(rng.uniform(-0.5, 0.5), 2), "s": round(rng.uniform(0.3, 1.2), 2)})
+                continue
+            kind = rng.choice(["update", "regenerate", "empty"])
+            ent = {"addr": s["addr"], "kind": kind}
+            if kind == "update":
+                ent["constraint"] = gen_constraint(rng, s["callee"], rng.choice(["partial", "single", "full", "full", "empty"]))
+            elif kind == "regenerate":
+                ent["sel"] = gen_selection(rng, _static_addrs(s["callee"]))
+                if not accepts_regenerate(s["callee"]):
+                    ok = False
+            subs.append(ent)
+    return subs, ok
 
 
 def _fed_switches(node, sr):
@@ -521,6 +558,9 @@ def gen_session(session_seed, pid, tier, profile=None):
             elif op == "index_edit":
                 n = _vec_len(node)
                 sub = rng.choice(["update", "update", "regenerate"])
+                ixs = P.get("index_static", 0.0)
+                if ixs > 0 and rng.random() < ixs and unwrap(node)["k"] in ("vmap", "repeat") and static_root(unwrap(node)["inner"]) is not None and unwrap(unwrap(node)["inner"])["k"] == "static":
+                    sub = "static"  # IndexRequest(i, StaticRequest({...})) on the kernel
                 st["sub"] = sub
                 if n is None or n == 0:
                     st["idx"] = 0
@@ -534,6 +574,10 @@ def gen_session(session_seed, pid, tier, profile=None):
                 if sub == "update":
                     st["constraint"] = gen_constraint(rng, inner, rng.choice(["partial", "single", "full", "empty"]))
                     st["build"] = "set"
+                elif sub == "static":
+                    st["subs"], ok = _gen_static_subs(rng, P, inner, static_root(inner))
+                    if not ok:
+                        expect = "reject"
                 else:
                     st["sel"] = gen_selection(rng, _static_addrs(inner))
                 st["idx_enc"] = rng.choice(["int", "arr"])
@@ -560,6 +604,10 @@ def gen_session(session_seed, pid, tier, profile=None):
                             continue
                         if rng.random() < 0.6:
                             kind = rng.choice(["update", "regenerate", "empty"])
+                            rj = P.get("rejuv", 0.0)
+                            if rj > 0 and s["callee"]["k"] == "dist" and s["callee"]["d"] == "normal" and rng.random() < rj:
+                                subs.append({"addr": s["addr"], "kind": "rejuv", "a": round(rng.uniform(0.3, 1.0), 2), "b": round(rng.uniform(-0.5, 0.5), 2), "s": round(rng.uniform(0.3, 1.2), 2)})
+                                continue
                             ent = {"addr": s["addr"], "kind": kind}
                             if kind == "update":
                                 ent["constraint"] = gen_constraint(rng, s["callee"], rng.choice(["partial", "single", "full", "full", "empty"]))
